@@ -926,3 +926,75 @@ def callbacks_paired_with_their_data(prog, rule, fnames):
             else:
                 rule.ok(key)
     return n
+
+
+def read_wrappers_keep_buffer(prog, rule, files=('dbus/dbus-sysdeps-unix.c',)):
+    """The functions that read from a descriptor into the end of a DBusString grow the string once, read into the new
+    space, and on every way out set the length to what was really read: (a) on every path there is at most one
+    `_dbus_string_lengthen` of the buffer (a retry after EINTR must not grow it again), (b) after the buffer was grown
+    every exit has passed `_dbus_string_set_length` on it."""
+    from .cfg import Explorer, is_ref
+    n = 0
+    for f in prog.funcs.values():
+        if f.file not in files or not prog.is_production(f):
+            continue
+        bufs = {p['id'] for p in f.params if 'DBusString' in (p.get('t') or '')}
+        grow = {c['id'] for b, i, c in f.calls('_dbus_string_lengthen')
+                if c['args'] and is_ref(c['args'][0]) and c['args'][0].get('id') in bufs}
+        reads = [c for b, i, c in f.calls() if c.get('callee') in ('read', 'recvmsg', 'recv')]
+        if not grow or not reads:
+            continue
+        setl = {c['id'] for b, i, c in f.calls('_dbus_string_set_length')
+                if c['args'] and is_ref(c['args'][0]) and c['args'][0].get('id') in bufs}
+        n += 1
+
+        def on_event(user, ev, ctx, grow=grow, setl=setl, f=f):
+            grown, trimmed = user
+            if ev['ev'] == 'call':
+                cid = ev['e'].get('id')
+                if cid in grow:
+                    if grown >= 1:
+                        ctx.report('%s grows the buffer a second time on one path (a retried read starts from a buffer '
+                                   'that already holds the first attempt\'s space): stale bytes stay in the stream' % f.name,
+                                   ev['line'], key=('grown-twice', ev['line']))
+                    return (min(grown + 1, 2), False)
+                if cid in setl:
+                    return (grown, True)
+            return user
+
+        def on_exit(user, ctx, ret, ev, grow=grow, f=f):
+            grown, trimmed = user
+            if grown and not trimmed and not any(ctx.result_known(g) is False for g in grow):
+                ctx.report('%s can return with the buffer still grown by the requested count, not cut back to what was '
+                           'read: bytes nobody sent become part of the stream' % f.name, ev['line'] if ev else f.line,
+                           key=('not-trimmed', ev['line'] if ev else 0))
+        ex = Explorer(f, init=(0, False), on_event=on_event, on_exit=on_exit, calls={'_dbus_string_lengthen'},
+                      track='auto', cap=300000).run()
+        key = '%s:buffer-discipline' % f.name
+        if ex.reports:
+            rule.from_reports(ex.reports, keyfn=lambda k, rep, f=f: '%s:%s' % (f.name, k[0]))
+        else:
+            rule.ok(key)
+    if n < 2:
+        raise AnalysisBroken('read wrappers that grow a string buffer: only %d found' % n)
+    return n
+
+
+def clocks_named(prog, rule):
+    """_dbus_get_real_time reads the wall clock, _dbus_get_monotonic_time the monotonic clock."""
+    from .cfg import is_int
+    U = 'dbus/dbus-sysdeps-unix.c'
+    for fname, want, other in (('_dbus_get_real_time', 'CLOCK_REALTIME', 'CLOCK_MONOTONIC'),
+                               ('_dbus_get_monotonic_time', 'CLOCK_MONOTONIC', 'CLOCK_REALTIME')):
+        f = prog.fn(fname, U)
+        ids = []
+        for b, i, c in f.calls('clock_gettime'):
+            if c['args'] and is_int(c['args'][0]):
+                ids.append(c['args'][0].get('name') or str(c['args'][0]['v']))
+        wall = [c for b, i, c in f.calls('gettimeofday')]
+        key = '%s:clock' % fname
+        if other in ids or (fname == '_dbus_get_real_time' and not wall and want not in ids) or \
+                (fname == '_dbus_get_monotonic_time' and ids and want not in ids):
+            rule.violation(key, fname, U, f.line, '%s reads %s' % (fname, ', '.join(ids) or 'no clock'))
+        else:
+            rule.ok(key, {'clock_gettime': ids, 'gettimeofday': len(wall)})
